@@ -104,6 +104,7 @@ type FnCtx struct {
 	trustedUsed map[string]bool
 	assumptionsUsed map[string]bool
 	quantN int
+	letDefs []LetDef
 	qdepth int
 	log *writeLog
 	dry int
